@@ -71,6 +71,15 @@ pub fn set_lookup_wires<
 
         for (inp_target, _) in prover_data.lut_to_lookups[lut_index].iter() {
             let inp_value = pw.get_target(*inp_target);
+            #[cfg(feature = "verif_hooks")]
+            if crate::verif_hooks::knobs::get().lenient_lookups
+                && u16::try_from(inp_value.to_canonical_u64())
+                    .ok()
+                    .and_then(|v| table_value_to_idx.get(&v))
+                    .is_none()
+            {
+                continue;
+            }
             let idx = table_value_to_idx
                 .get(&u16::try_from(inp_value.to_canonical_u64()).unwrap())
                 .unwrap();
@@ -272,6 +281,16 @@ where
             &alphas,
         )
     );
+    #[cfg(feature = "verif_hooks")]
+    let quotient_polys = {
+        let mut quotient_polys = quotient_polys;
+        if let Some((index, delta)) = crate::verif_hooks::knobs::get().quotient_perturb {
+            if let Some(c) = quotient_polys.get_mut(index).and_then(|q| q.coeffs.get_mut(0)) {
+                *c += F::from_canonical_u64(delta);
+            }
+        }
+        quotient_polys
+    };
 
     let all_quotient_poly_chunks: Vec<PolynomialCoeffs<F>> = timed!(
         timing,
@@ -279,6 +298,10 @@ where
         quotient_polys
             .into_par_iter()
             .flat_map(|mut quotient_poly| {
+                #[cfg(feature = "verif_hooks")]
+                if crate::verif_hooks::knobs::get().lenient_quotient {
+                    quotient_poly.coeffs.truncate(quotient_degree);
+                }
                 quotient_poly.trim_to_len(quotient_degree).expect(
                     "Quotient has failed, the vanishing polynomial is not divisible by Z_H",
                 );
@@ -433,6 +456,10 @@ fn wires_permutation_partial_products_and_zs<
         .collect::<Vec<_>>();
 
     let mut z_x = F::ONE;
+    #[cfg(feature = "verif_hooks")]
+    if let Some(v) = crate::verif_hooks::knobs::get().z_init {
+        z_x = F::from_canonical_u64(v);
+    }
     let mut all_partial_products_and_zs = Vec::with_capacity(all_quotient_chunk_products.len());
     for quotient_chunk_products in all_quotient_chunk_products {
         let mut partial_products_and_z_gx =
